@@ -372,7 +372,7 @@ def c04_f(ctx: Ctx):
 def c04_g(ctx: Ctx):
     """move() re-binds everything that depends on the project (same obligation as the move part of C03-b)."""
     from .c03 import c03_b
-    res = [r for r in c03_b(ctx) if r.function.endswith("Job.move") or "|binds|" in r.construct]
+    res = [r for r in c03_b(ctx) if r.function.endswith("Job.move") or "|binds|" in r.construct or r.construct.endswith("|scope")]
     for r in res:
         r.rule = "C04-g"
     return res
